@@ -80,9 +80,10 @@ pub fn replay(path: &str, out: &str) -> Value {
         writeln!(w, "{}", json!({"fg":fg,"bg":bg,"data":data,"inner":inner,"ret":ret,"impl":"dyn","whole":false})).unwrap();
         events += 1;
         // a probe call on a reliable writer right after every scripted call, with ONE colour only: nothing of the previous call -
-        // not even a failed one - may show in it (state carried across calls)
+        // not even a failed one - may show in it (state carried across calls, per object, per thread or per process)
         {
-            let (pfg, pbg) = if scripts % 2 == 0 { (2u64, 16u64) } else { (16u64, 3u64) };
+            // (every third probe asks for no colour: then not a single code may appear, whatever happened before)
+            let (pfg, pbg) = [(2u64, 16u64), (16u64, 3u64), (16u64, 16u64)][(scripts % 3) as usize];
             let log = Rc::new(RefCell::new(Log { script: VecDeque::new(), writes: vec![], data: b"p".to_vec(), pre: 1 }));
             let mut b: Box<dyn Write> = Box::new(W(log.clone()));
             let res = b.write_colored(col(pfg), col(pbg), b"p");
